@@ -468,6 +468,8 @@ def run(chk):
     chk.guard(rule_r5, chk)
     from .. import variants
     chk.guard(variants.apply, chk, "C06-R6", [("irispie.simultaneous._simulate", "Inlay.simulate")])
+    from .. import args as _args
+    chk.guard(_args.apply, chk, "C06-R90", {'frames', 'period_by_period', 'simultaneous', 'stacked_time'}, 1)
     chk.assumptions = [
         "that converged paths satisfy the equations and coincide with first order on linear models is numerical: NOT decided",
         "neqs solvers return (final_guess, ExitStatus)",
